@@ -64,7 +64,8 @@ func VH_C17_table_stop() {
 //verif:bounds index b-trees as C13's; scan kinds Scan / ScanMin / ScanEq(empty key) / ScanRange(empty lower, absent upper); stop position k = any int >= 1
 func VH_C17_index_stop() {
 	e, in := vhIndexSetup()
-	if len(e.ents) > 5 && verifTier() == 0 {
+	deep := len(e.ents) == 7 // depth 3, one entry per page
+	if len(e.ents) > 5 && !deep && verifTier() == 0 {
 		verifReach("end")
 		return
 	}
@@ -79,7 +80,11 @@ func VH_C17_index_stop() {
 	}
 	var err error
 	first := 0
-	switch verifChoice(3) {
+	op := verifChoice(3)
+	if deep && verifTier() == 0 {
+		verifAssume(op == 1) // quick tier: the 3-level tree only with the from-key scan
+	}
+	switch op {
 	case 0:
 		err = in.Scan(cb)
 	case 1:
